@@ -232,7 +232,13 @@ func c02TranspileMany(s *FcSrv, foi string, srcs []string) []srvResp {
 	return out
 }
 
+type c02Viol struct {
+	kind, summary string
+	extra         map[string]any
+}
+
 type c02Checked struct {
+	viols    []c02Viol // property failures found on this program (main stream: reported after shrinking)
 	prog     *c02Prog
 	fullGen  string   // gen_m.go of the fully annotated variant (in-process fc)
 	fullSigs []string // oracle signatures of the fully annotated variant
@@ -248,7 +254,12 @@ func c02ReplayOf(p *c02Prog, extra map[string]any) map[string]any {
 }
 
 // checks (i) and (ii) on one program; all variants through the in-process fc
-func c02CheckProgram(c *Ctx, p *c02Prog, or *Oracle, srv *FcSrv, hazard bool) *c02Checked {
+// quiet: no coverage counters (used while shrinking)
+func c02CheckProgram(c0 *Ctx, p *c02Prog, or *Oracle, srv *FcSrv, hazard bool, quiet bool) *c02Checked {
+	c := c0
+	if quiet {
+		c = &Ctx{Res: NewResult(), Verif: c0.Verif, ID: c0.ID}
+	}
 	res := &c02Checked{prog: p}
 	full, _, fullIn := c02Model(or, p, 0)
 	res.fullSigs = full
@@ -267,7 +278,7 @@ func c02CheckProgram(c *Ctx, p *c02Prog, or *Oracle, srv *FcSrv, hazard bool) *c
 			c02HazardNote(c, p, summary, extra)
 			return
 		}
-		c.Violate(name, summary, c02ReplayOf(p, extra), false)
+		res.viols = append(res.viols, c02Viol{name, summary, extra})
 	}
 	bad := false
 	var masks []uint
@@ -373,6 +384,79 @@ func c02HazardNote(c *Ctx, p *c02Prog, summary string, extra map[string]any) {
 		return
 	}
 	c.Note("hazard stream (%s), not counted as violation: %s; source: %s", p.Stream, summary, p.funcsText(0))
+}
+
+// shrink a failing program: keep one function and what it (transitively) references, as long as a
+// failure of the same kind remains; then drop annotations that are not needed for the failure
+func c02Shrink(c *Ctx, p *c02Prog, res *c02Checked, or *Oracle, srv *FcSrv) (*c02Prog, *c02Checked) {
+	kind := res.viols[0].kind
+	same := func(r *c02Checked) bool {
+		if r == nil {
+			return false
+		}
+		for _, v := range r.viols {
+			if v.kind == kind {
+				return true
+			}
+		}
+		return false
+	}
+	best, bres := p, res
+	for fi := range p.Funcs {
+		need := map[int]bool{fi: true}
+		for changed := true; changed; {
+			changed = false
+			for fj := range p.Funcs {
+				if !need[fj] {
+					continue
+				}
+				m := map[string]int{}
+				p.Funcs[fj].Body.count(m)
+				for fk := range p.Funcs {
+					if !need[fk] && m["global="+p.Funcs[fk].Name] > 0 {
+						need[fk] = true
+						changed = true
+					}
+				}
+			}
+		}
+		if len(need) >= len(best.Funcs) {
+			continue
+		}
+		q := &c02Prog{ID: p.ID, Stream: p.Stream, Pre: p.Pre}
+		for fj, f := range p.Funcs {
+			if need[fj] {
+				q.Funcs = append(q.Funcs, f)
+			}
+		}
+		q.initSites(NewRng(1))
+		if r := c02CheckProgram(c, q, or, srv, false, true); same(r) {
+			best, bres = q, r
+		}
+	}
+	// annotations: erase for good those whose erasure keeps the failure
+	for fi := range best.Funcs {
+		for pi := range best.Funcs[fi].Params {
+			if !best.Funcs[fi].Params[pi].Ann {
+				continue
+			}
+			q := &c02Prog{ID: best.ID, Stream: best.Stream, Pre: best.Pre}
+			for fj, f := range best.Funcs {
+				g := *f
+				g.Params = append([]c02Param{}, f.Params...)
+				if fj == fi {
+					g.Params[pi].Ann = false
+					g.Expect = ""
+				}
+				q.Funcs = append(q.Funcs, &g)
+			}
+			q.initSites(NewRng(1))
+			if r := c02CheckProgram(c, q, or, srv, false, true); same(r) {
+				best, bres = q, r
+			}
+		}
+	}
+	return best, bres
 }
 
 func c02Features(c *Ctx, p *c02Prog) {
@@ -534,12 +618,12 @@ func c02Batch(c *Ctx, bi int, items []*c02Checked) {
 	}
 	MustWrite(filepath.Join(dir, "m.fo"), src.String())
 	MustWrite(filepath.Join(dir, "main.go"), "package main\n\nfunc main() {}\n")
-	r := c.Fc(dir, c.PkgAllFoi(), "m.fo")
+	r := Run(dir, 300*time.Second, 4096, []string{"GOMAXPROCS=2"}, filepath.Join(c.Bin, "fc"), c.PkgAllFoi(), "m.fo")
 	c.Count("real_fc_process_runs")
 	genb, _ := os.ReadFile(filepath.Join(dir, "gen_m.go"))
 	gen := string(genb)
 	if r.Exit != 0 || gen == "" {
-		c.Violate("batch", "functions accepted one by one are rejected by the fc process when put into one file: "+firstLine(r.Stdout),
+		c.Violate("batch", fmt.Sprintf("functions accepted one by one are rejected by the fc process when put into one file (exit %d, timeout %v): %s", r.Exit, r.TimedOut, firstLine(r.Stdout)),
 			map[string]any{"source": src.String(), "fc_output": r.Stdout + r.Stderr}, false)
 		return
 	}
@@ -627,9 +711,9 @@ func runC02(c *Ctx) {
 		"at several instantiations) with the principal type known by construction; every subset of <= 6 annotations erased; " +
 		"non-trivial = at least one unannotated parameter or a generic result; distinct by source text of the fully annotated program"
 	c02CheckFoi(c)
-	nRand := c.Pick(110, 9000)
-	nShape := c.Pick(70, 5000)
-	nHazard := c.Pick(12, 400)
+	nRand := c.Pick(110, 2000)
+	nShape := c.Pick(70, 1200)
+	nHazard := c.Pick(12, 100)
 	c02MaxSites = c.Pick(4, 6) // quick: <= 2^4 variants per program, thorough: <= 2^6
 	var progs []*c02Prog
 	if c.Replay != "" {
@@ -684,13 +768,19 @@ func runC02(c *Ctx) {
 					p = c02GenShapeProg(j.rng, j.id, c.Thorough())
 				}
 			}
-			res := c02CheckProgram(c, p, or, srv, strings.HasPrefix(p.Stream, "hazard"))
+			res := c02CheckProgram(c, p, or, srv, strings.HasPrefix(p.Stream, "hazard"), false)
 			if res == nil {
 				if c.Replay != "" || tries > 20 {
 					panic("program is outside the domain (a record type determined only by a field name):\n" + p.source(0))
 				}
 				c.Count("regenerated_outside_domain")
 				continue
+			}
+			if len(res.viols) > 0 {
+				small, sres := c02Shrink(c, p, res, or, srv)
+				for _, v := range sres.viols {
+					c.Violate(v.kind, v.summary, c02ReplayOf(small, v.extra), false)
+				}
 			}
 			mu.Lock()
 			progs[i] = p
@@ -749,7 +839,7 @@ func runC02(c *Ctx) {
 		}
 	}
 	// a sample of single programs as real fc processes: the in-process server must agree byte for byte
-	nproc := c.Pick(25, 400)
+	nproc := c.Pick(25, 150)
 	idx := rng.Perm(len(progs))
 	if nproc > len(idx) {
 		nproc = len(idx)
